@@ -432,6 +432,53 @@ func fragOracle(r *rand.Rand, n int, tier string, infile string) (cases int, fai
 				fails = append(fails, fmt.Sprintf(f, a...)+" history=["+strings.Join(h, "; ")+"]")
 			}
 		}
+		if r.Intn(6) == 0 { // loss-free, in-order transfer of a payload that needs many parts: it must arrive once, intact
+			over := 15
+			counts := []int{1, 2, 127, 128, 129, 200, 254, 255}
+			if kind == "mb" {
+				over = 24
+				counts = []int{1, 2, 255, 256, 257, 700}
+			}
+			part := hx.Pick(r, 1, 2, 5, 16)
+			nparts := counts[r.Intn(len(counts))]
+			size := nparts*part - r.Intn(part)
+			run := func(op string) string {
+				cases++
+				hist = append(hist, op)
+				st.apply(strings.Fields(op), o)
+				return o.Last()
+			}
+			run(fmt.Sprintf("%s-new %d %d", kind, over+part, 100000))
+			payload := hx.Bytes(r, size)
+			if r.Intn(3) == 0 {
+				for i := range payload {
+					payload[i] = byte(hx.Pick(r, 0x01, 0x80, 0xff))
+				}
+			}
+			res := run(fmt.Sprintf("%s-tell 0 %s", kind, hx.Hex(payload)))
+			if !strings.HasPrefix(res, "pkts ") {
+				bad("%s payload of %d bytes (%d parts) not sent: %s", kind, size, nparts, res)
+				continue
+			}
+			got := 0
+			for _, p := range strings.Split(strings.TrimPrefix(res, "pkts "), ",") {
+				if p == "" {
+					continue
+				}
+				d := run(fmt.Sprintf("%s-recv 0 %s", kind, p))
+				if d == "none" {
+					continue
+				}
+				got++
+				if x := strings.TrimPrefix(strings.TrimPrefix(d, "deliver "), "tell "); x != hx.Hex(payload) {
+					bad("C09 %s payload of %d bytes in %d parts arrives altered: %d bytes delivered", kind, size, nparts, len(x)/2)
+				}
+			}
+			if got != 1 {
+				bad("C09 %s payload of %d bytes in %d parts, every fragment handed over once and in order, is delivered %d times", kind, size, nparts, got)
+			}
+			continue
+		}
 		told, toldSrc, sched, delivered := fragScenario(r, kind, true, func(op string) string {
 			cases++
 			hist = append(hist, op)
